@@ -37,8 +37,13 @@ def gen_scenario(rng):
         mixin = rng.random() < 0.2  # a plain class without the metaclass
         nd = rng.choice([0, 1, 1, 2, 2, 3])
         own = []
+        used = set()
         for _ in range(nd):
             c = rng.choice(classes + [0])
+            if c in used:
+                # same-named definitions of one body have different signatures
+                continue
+            used.add(c)
             r = rng.random()
             body = ["ret"] if r < 0.6 else (["recurse", [["c", rng.randrange(len(args))]]] if r < 0.8 else ["callNext", [["p", 0]]])
             defs.append({"id": ndefs, "code": 100 + ndefs, "isMethod": True, "prio": 0, "params": [{"name": 0, "kind": "pk", "req": True, "ty": ["cls", c]}], "body": body})
